@@ -79,6 +79,12 @@ def _observe_ticks(d0, d1, m, pre, rec):
         d0, d1 = [float(x) for x in s.domain()]
         rec["dom"] = [repr(d0), repr(d1)]
         rec["pre"] = list(pre)
+    first = s.ticks(m)
+    if isinstance(first, list) and first:
+        first.reverse()                 # the caller edits the list it was given and asks again: the SECOND answer is observed
+        first.pop()
+    elif not isinstance(first, list):
+        next(iter(first), None)         # (a generator: consumed a little and dropped)
     ticks = [float(t) for t in s.ticks(m)]
     fmt = s.tickFormat(m)
     labels = [fmt(t) for t in ticks]
@@ -175,8 +181,11 @@ def nice_record(d0, d1, m):
             return None
     mant, exp, Q, u = un
     q = lambda v: int(round((Fraction(v) - base) / u))
+    # how far an end moved INWARD, in thousandths of what float arithmetic accounts for (four roundings at the magnitude of the ends)
+    allowed = 4.0 * math.ulp(max(abs(lo), abs(hi), abs(step)))
+    xin = int(min(10 ** 6, 1000.0 * max(0.0, nlo - lo, hi - nhi) / allowed))
     return {"kind": "nice", "m": m, "mant": mant, "Q": Q, "exp": exp, "dom": [repr(d0), repr(d1)], "niced": [repr(x) for x in nd],
-            "lo": q(lo), "hi": q(hi), "nlo": q(nlo), "nhi": q(nhi),
+            "lo": q(lo), "hi": q(hi), "nlo": q(nlo), "nhi": q(nhi), "xin": xin,
             "rev_in": 1 if d0 > d1 else 0, "rev_out": 1 if nd[0] > nd[1] else 0}
 
 
